@@ -44,7 +44,8 @@ func (prop) Sweep(string) []kernel.Scenario { return nil }
 
 func (prop) Describe() kernel.Description {
 	return kernel.Description{
-		Rule: "one run = one generated API (2–4 security definitions, some without a registered authenticator; requirement list of 1–3 alternatives with 1–3 schemes " +
+		Rule: "Dimensions added with the seed waves: scheme names a requirement uses but the description does not define; rejection errors of every kind incl. ones wrapping context/deadline sentinels; an authorizer that panics; a front middleware running programs over {Authorize, ResetAuth}; re-authorize after ResetAuth in the accessor flow; security registered after NewContext; every handler constructor of the Context (APIHandler, APIHandlerSwaggerUI, APIHandlerRapiDoc, RoutesHandler); request context cancelled while the k-th consultation runs. " +
+			"one run = one generated API (2–4 security definitions, some without a registered authenticator; requirement list of 1–3 alternatives with 1–3 schemes " +
 			"and scopes each, optionally the empty alternative, global or per-operation), one outcome per scheme (not applicable / accepts with principal / accepts with nil " +
 			"principal / rejects with an error of code 401, 403, 418 or a plain error), authorizer absent / accepting / denying with a plain error / denying with its own status, " +
 			"and one request whose rest is right or wrong (bad Content-Type, unacceptable Accept, invalid parameter, invalid body). The request is served once for EVERY " +
